@@ -86,6 +86,27 @@ def exp_types(flavour, mon, kinds, coll, T, budget=3000, **extra):
 
 LEVEL_TEXT = "exploration"
 
+# Thresholds come in two kinds. HARD ones count what the generators and reference models produced
+# (operations executed, answers compared, injections made): they do not depend on how the library is
+# written, and a run that misses one has not observed the property -> INCONCLUSIVE. SOFT ones count
+# situations *inside* the library (physical tree shapes, which removal case ran, lazily removed
+# entries met on a path, arena growth, which of the user's callbacks the library chose to call): a
+# correct library with another internal policy (eager purge, predecessor instead of successor, root
+# always black, `cmp` only) legitimately lowers them, so missing one is reported as a coverage note in
+# the evidence and on the console, never as a verdict.
+SOFT_KEYS = {
+    "states", "max_buffer_len_seen", "growth_checkpoints_with_held_handles",
+    "q_that_physically_removed_entries", "q_with_expired_entry_on_search_path",
+    "export_with_expired_successor_of_expired_node", "export_with_previously_used_free_slots",
+    "get_target_at_root", "get_target_in_left_subtree", "get_target_in_right_subtree",
+    "cb_keys_one_tick_from_expiry", "outcome_contents_as_before",
+}
+SOFT_PREFIXES = ("removal_", "injected_")
+
+
+def is_soft(key):
+    return key in SOFT_KEYS or key.startswith(SOFT_PREFIXES)
+
 
 def plan(prop, tier, seed):
     T = tier == "thorough"
